@@ -196,6 +196,11 @@ func (fst *FSTree) Query(q *query.Query, local, internal bool) (*iterator.Iterat
 	default: // err != nil
 		return nil, fmt.Errorf("fstree: could not stat query root %s: %w", walkPrefix, err)
 	}
+	// Never start the walk above the base path: if the base path itself is
+	// missing or not a directory, its parent is not ours to list.
+	if !fst.inScope(walkRoot) {
+		walkRoot = fst.basePath
+	}
 
 	queryIter := iterator.New()
 
